@@ -148,6 +148,7 @@ enum StepKind { S_IN, S_OUT, S_OBJ };
 struct Step { int kind; std::string name; Val v; int idx; int variant; int obj; int okind; };   // variant: 0 same, 1 near miss, 2/3 equal but represented differently
 struct CallSpec {
     int scope, func; bool unknown; std::vector<Step> steps; int fetch; bool probe; int origin; std::string mut;
+    unsigned readSel = 0;            // which of the getters that admit the stored return value reads it back
 };
 Step in_step(const std::string& name, const Val& v, int idx) { Step s; s.kind = S_IN; s.name = name; s.v = v; s.idx = idx; s.variant = 0; s.obj = 0; s.okind = 0; return s; }
 Step out_step(const std::string& name, int okind) { Step s; s.kind = S_OUT; s.name = name; s.idx = 0; s.variant = 0; s.obj = 0; s.okind = okind; return s; }
@@ -546,7 +547,7 @@ void decode(Reader& r, Case& cs) {
     for (auto& c : cs.calls) {
         uint8_t ord = r.u8(), d = r.u8(), e = r.u8();
         static const int fetches[8] = {0, 1, 2, 3, 4, 5, 6, 0};   // 0/1 returnValue() of call/scope, 2 none, 3/4 typed getter, 5/6 typed ...OrDefault
-        c.fetch = fetches[e & 7];
+        c.fetch = fetches[e & 7]; c.readSel = e >> 5;
         c.probe = ((d >> 6) & 3) == 1;
         const FuncSpec& f = cs.fs[c.func];
         int eqv = (e >> 3) & 3;                                  // 2, 3: pass every unmutated value in its other representation
@@ -601,7 +602,7 @@ std::string render(const Case& cs) {
             else if (st.kind == S_OUT) s += sfmt("%s:%s", st.name.c_str(), st.okind ? "VOut" : "out");
             else s += sfmt("@obj%d", st.obj);
         }
-        s += sfmt(")f%d%s", c.fetch, c.probe ? "?left" : "");
+        s += sfmt(")f%dr%u%s", c.fetch, c.readSel, c.probe ? "?left" : "");
         if (!c.mut.empty()) s += "[" + c.mut + "]";
     }
     return s;
@@ -657,16 +658,23 @@ void expect_param(MockExpectedCall& x, const char* name, const Val& v) {
 }
 
 struct RV { i128 i = 0; double d = 0; std::string s; uintptr_t p = 0; };
+// return values: per kind six distinct boundary values (limits, sign boundaries, values agreeing in their low 32 bits)
 RV expected_ret(int ret, int i) {
+    static const i128 rint[6] = {100, INT_MAX, INT_MIN, -1, 0, 0x10000};
+    static const i128 ruint[6] = {3000000000LL, UINT_MAX, 0x80000000LL, 0x7fffffff, 0, 0x10010};
+    static const i128 rlong[6] = {0x10 - ((i128)1 << 32), LLONG_MIN, LLONG_MAX, -1, 0x100000010LL, 3000000000LL};
+    static const i128 rulong[6] = {0x10, 0x100000010LL, (i128)ULLONG_MAX, (i128)1 << 63, LLONG_MAX, 3000000000LL};
+    static const i128 rllong[6] = {LLONG_MIN, LLONG_MAX, -1, 0x100000010LL, -0x100000010LL, 0};
+    static const i128 rullong[6] = {(i128)ULLONG_MAX, (i128)ULLONG_MAX - 1, (i128)1 << 63, LLONG_MAX, 0x100000010LL, 0x10};
     RV r;
     switch (ret) {
     case R_BOOL: r.i = i & 1; break;
-    case R_INT: r.i = 100 + i; break;
-    case R_UINT: r.i = (i128)4000000000u + i; break;
-    case R_LONG: r.i = 0x10 - ((i128)(i + 1) << 32); break;
-    case R_ULONG: r.i = 0x10 + ((i128)i << 32); break;                  // values that agree in their low 32 bits
-    case R_LLONG: r.i = (i128)LLONG_MIN + i; break;
-    case R_ULLONG: r.i = (i128)ULLONG_MAX - i; break;
+    case R_INT: r.i = rint[i]; break;
+    case R_UINT: r.i = ruint[i]; break;
+    case R_LONG: r.i = rlong[i]; break;
+    case R_ULONG: r.i = rulong[i]; break;
+    case R_LLONG: r.i = rllong[i]; break;
+    case R_ULLONG: r.i = rullong[i]; break;
     case R_DOUBLE: r.d = i + 0.25; break;
     case R_STR: r.s = kRetStr[i]; break;
     case R_PTR: r.p = 0x10 + ((uintptr_t)i << 32); break;
@@ -674,6 +682,28 @@ RV expected_ret(int ret, int i) {
     case R_FPTR: r.p = 0x1000 + (uintptr_t)i * 16; break;
     }
     return r;
+}
+// the documented widening conversions of the integer getters: a stored integer of kind S with value v may be read through
+// the getter of kind R exactly in these cases (every other combination fails a type check of the running test)
+bool getter_admits(int R, int S, i128 v) {
+    if (R == S) return true;
+    switch (R) {
+    case R_UINT: return S == R_INT && v >= 0;
+    case R_LONG: return S == R_INT || S == R_UINT;
+    case R_ULONG: return S == R_UINT || ((S == R_INT || S == R_LONG) && v >= 0);
+    case R_LLONG: return S == R_INT || S == R_UINT || S == R_LONG || (S == R_ULONG && v <= (i128)LLONG_MAX);
+    case R_ULLONG: return S == R_UINT || S == R_ULONG || ((S == R_INT || S == R_LONG || S == R_LLONG) && v >= 0);
+    default: return false;
+    }
+}
+int read_kind(int S, i128 v, unsigned sel) {
+    if (S < R_INT || S > R_ULLONG) return S;
+    int adm[6]; int n = 0;
+    for (int R = R_INT; R <= R_ULLONG; R++) if (getter_admits(R, S, v)) adm[n++] = R;
+    // the stored kind itself comes first so that selector 0 is the plain case
+    int own = 0; for (int k = 0; k < n; k++) if (adm[k] == S) own = k;
+    std::swap(adm[0], adm[own]);
+    return adm[sel % (unsigned)n];
 }
 RV default_ret(int ret, bool otherThanBool) {
     RV r; r.i = ret == R_BOOL ? (otherThanBool ? 1 : 0) : 77; r.d = 77.5; r.s = "dflt"; r.p = 0x77;
@@ -863,9 +893,11 @@ int fetch_and_check(MockActualCall& ac, MockSupport* scope, const CallSpec& c, c
         }
         std::string type = v.getType().asCharString();
         V_CHECK(type == kRetTypeString[f->ret], "C08:return-value", "%s: returned a value of type <%s>, the consumed expectation #%d returns <%s> [%s]", where.c_str(), type.c_str(), ei, kRetTypeString[f->ret], scenario.c_str());
-        RV got = from_named(v, f->ret), exp = expected_ret(f->ret, ei);
-        V_CHECK(rv_equal(f->ret, got, exp), "C08:return-value", "%s: returned %s, but the call consumed expectation #%d (declaration order) whose return value is %s [%s]", where.c_str(), rv_text(f->ret, got).c_str(), ei, rv_text(f->ret, exp).c_str(), scenario.c_str());
-        verif::cls("checked:return-value");
+        RV exp = expected_ret(f->ret, ei);
+        int rk = read_kind(f->ret, exp.i, c.readSel);
+        RV got = from_named(v, rk);
+        V_CHECK(rv_equal(rk, got, exp), "C08:return-value", "%s: returnValue() read through the %s getter gave %s, but the call consumed expectation #%d (declaration order) whose %s return value is %s [%s]", where.c_str(), kRetName[rk], rv_text(rk, got).c_str(), ei, kRetName[f->ret], rv_text(f->ret, exp).c_str(), scenario.c_str());
+        verif::cls(rk == f->ret ? "checked:return-value" : "checked:return-value-through-wider-getter");
         return 0;
     }
     // typed getters: the plain form only when there is a value (on a call without one it fails a type check of the current test)
@@ -873,6 +905,7 @@ int fetch_and_check(MockActualCall& ac, MockSupport* scope, const CallSpec& c, c
     if (!want && traced && !viaScope) return 0;      // the trace object's ...OrDefault forms are not part of this property
     bool orDefault = !want || c.fetch >= 5;
     RV exp = want ? expected_ret(ret, ei) : default_ret(ret, true);
+    if (want) { int rk = read_kind(ret, exp.i, c.readSel); if (rk != ret) verif::cls("checked:typed-return-through-wider-getter"); ret = rk; }
     RV dflt = default_ret(ret, want ? exp.i == 0 : true);
     if (!want) exp = dflt;
     RV got = typed_fetch(ac, scope, viaScope, ret, orDefault, dflt);
